@@ -8,6 +8,9 @@ pub enum Dev {
     Short1,
     /// this call and the next L-1 calls return Interrupted, then reading resumes
     Eintr(u8),
+    /// this call returns Ok(0) although more data follows (the source is a file that is still being
+    /// appended to): end of file for now; later calls deliver the rest
+    Zero,
 }
 
 #[derive(Clone, Debug, PartialEq, Eq, Hash)]
@@ -33,6 +36,7 @@ impl Sched {
                     .map(|(i, d)| match d {
                         Dev::Short1 => format!("{}s", i),
                         Dev::Eintr(l) => format!("{}e{}", i, l),
+                        Dev::Zero => format!("{}z", i),
                     })
                     .collect::<Vec<_>>()
                     .join(",")
@@ -57,6 +61,8 @@ impl Sched {
             }
             if let Some(i) = tok.strip_suffix('s') {
                 v.push((i.parse().ok()?, Dev::Short1));
+            } else if let Some(i) = tok.strip_suffix('z') {
+                v.push((i.parse().ok()?, Dev::Zero));
             } else {
                 let (i, l) = tok.split_once('e')?;
                 v.push((i.parse().ok()?, Dev::Eintr(l.parse().ok()?)));
@@ -74,11 +80,13 @@ pub struct ScriptReader<'a> {
     eintr_left: usize,
     /// set when the reader was called again after it had reported EOF and the caller already saw it
     pub max_request: usize,
+    /// number of Ok(0) answers given while data was still to come
+    pub transient_eofs: usize,
 }
 
 impl<'a> ScriptReader<'a> {
     pub fn new(data: &'a [u8], sched: &'a Sched) -> Self {
-        ScriptReader { data, pos: 0, sched, calls: 0, eintr_left: 0, max_request: 0 }
+        ScriptReader { data, pos: 0, sched, calls: 0, eintr_left: 0, max_request: 0, transient_eofs: 0 }
     }
     pub fn delivered(&self) -> usize {
         self.pos
@@ -107,6 +115,12 @@ impl Read for ScriptReader<'_> {
                             Dev::Eintr(l) => {
                                 self.eintr_left = (*l as usize).saturating_sub(1);
                                 return Err(std::io::Error::new(std::io::ErrorKind::Interrupted, "eintr"));
+                            }
+                            Dev::Zero => {
+                                if self.pos < self.data.len() && !dst.is_empty() {
+                                    self.transient_eofs += 1;
+                                }
+                                return Ok(0);
                             }
                         }
                     }
